@@ -31,7 +31,7 @@ EXCS = sorted(probes.FAULT_TYPES)
 REQUIRED = (['handle:' + h for h in HANDLES] + ['fn:todb', 'fn:appenddb', 'commit:True', 'commit:False', 'fail:none', 'fail:header',
             'fail:first-row', 'fail:last-row', 'fail:exhaustion', 'rolled-back-load-left-previous-contents', 'commit=False-invisible-until-caller-commits',
             'roundtrip-typed-cells', 'quoted-identifiers', 'sql-statements-traced', 'schema-qualified'] + ['exc:' + e for e in EXCS])
-EXHAUSTIVE = {'quick': True, 'thorough': True}
+EXHAUSTIVE = {'quick': False, 'thorough': False}   # the enumerated families are complete within their bounds, but a seeded random family is judged too
 
 CELLS = [None, 0, 1, -5, 2 ** 40, 1.5, -0.25, '', 'a', "it's", 'say "hi"', 'é€漢', 'x;y', b'', b'\x00\xff', 'NULL', ' lead']
 
